@@ -100,6 +100,11 @@ def gen_cases(tier, seed):
                rng.choice(DESTS), rng.choice(pac_names), content=rng.choice([0, 1, 2, "zeros", "ones", "ramp"]),
                md_only=rng.random() < 0.04)
         )
+        if cases[-1]["cfg"]["mode"] == "ack" and rng.random() < 0.4:
+            # slow entities: up to 1.5 s of (virtual) time pass before every round while the retry timers are configured far longer than the
+            # whole transfer takes (and the user's check-timer provider, which has no business in acknowledged mode, hands out 0.5 s)
+            cases[-1]["cfg"].update({"ack_ivl": 100000.0, "nak_ivl": 100000.0, "check_ivl_ms": 500})
+            cases[-1]["drift"] = [rng.randrange(1 << 30), 1500]
         if rng.random() < 0.15:
             cases[-1]["busy_put"] = rng.randrange(0, 6)
         if rng.random() < 0.25:
@@ -121,6 +126,9 @@ def gen_cases(tier, seed):
                    content=rng.randrange(4))
         first["seq"] = [rng.choice(["empty", "small", "multi", "md_only"]) for _ in range(rng.choice([2, 2, 3]))]
         first["refused_first"] = rng.choice([0, 0, 1, 2, 3, 4])
+        if rng.random() < 0.5:
+            first["retune"] = rng.randrange(1, 1 << 30)
+        first["seq_pacing"] = rng.choice(list(PACINGS))
         cases.append(first)
     return cases
 
@@ -140,7 +148,18 @@ def run_sequence(case):
             if kind != "md_only":
                 w.write_raw("src", w.src_path, w.data)
             mark = w.log.seq
-            r = Runner(w, max_rounds=4 * 3 + 40, max_expiries=8)
+            drift = None
+            if case.get("retune") and cfg["mode"] == "ack":
+                # the user re-tunes the timers of this destination between the transfers: short intervals first (nothing is slow then), very
+                # long ones for the last transfer, during which the entities are slow (up to 1.5 s before every call)
+                last = i == len(case["seq"]) - 1
+                for rc in (w.rc_dst_at_src, w.rc_src_at_dst):
+                    rc.positive_ack_timer_interval_seconds = 100000.0 if last else 0.2
+                    rc.nak_timer_interval_seconds = 100000.0 if last else 0.3
+                if last:
+                    drift = (case["retune"], 1500)
+                    obs["slow_transfer_after_timers_were_retuned"] = 1
+            r = Runner(w, max_rounds=4 * 3 + 40, max_expiries=8, drift_ms=drift, pacing=PACINGS[case.get("seq_pacing", "alt")])
             try:
                 if case.get("refused_first") and i == case["refused_first"] % len(case["seq"]):
                     # a request which is refused with the documented error comes first; the valid one must run to completion all the same
@@ -198,7 +217,7 @@ def run_case(case):
         if case.get("busy_put") is not None:
             # while the transfer runs the user asks for another one towards a different peer: refused (busy), no effect on the running one
             acts = {case["busy_put"]: [("put_third",)]}
-        r = Runner(w, pacing=PACINGS[case["pacing"]], max_rounds=4 * nseg + 40, max_expiries=8, actions=acts)
+        r = Runner(w, pacing=PACINGS[case["pacing"]], max_rounds=4 * nseg + 40, max_expiries=8, actions=acts, drift_ms=tuple(case["drift"]) if case.get("drift") else None)
         try:
             ok = w.put()
             if not ok:
@@ -219,6 +238,7 @@ def run_case(case):
         obs["cases_" + cfg["mode"] + ("_closure" if cfg["closure"] else "")] = 1
         obs["pdus_delivered"] = r.delivered
         obs["refused_put_requests_during_transfer"] = r.refused_puts
+        obs["transfers_with_time_passing_between_calls"] = int(r.drifted_ms > 0)
         obs["clock_advances_needed"] = r.expiries
         obs["success_reports_checked"] = mon.success_reports
         obs["metadata_only"] = int(cfg["metadata_only"])
@@ -240,4 +260,4 @@ def run_case(case):
     return {"viol": viol, "sig": sig, "obs": obs, "keys": keys, "sample": sample}
 
 
-REQUIRED = {"success_reports_checked": 100, "pdus_delivered": 1000, "transfers_on_reused_handlers": 100, "dest_dir_existing": 20, "refused_requests_before_a_valid_one": 50, "refused_put_requests_during_transfer": 50}
+REQUIRED = {"success_reports_checked": 100, "pdus_delivered": 1000, "transfers_on_reused_handlers": 100, "dest_dir_existing": 20, "refused_requests_before_a_valid_one": 50, "refused_put_requests_during_transfer": 50, "transfers_with_time_passing_between_calls": 200, "slow_transfer_after_timers_were_retuned": 30}
